@@ -81,6 +81,28 @@ def scenario(rng, ident):
     return "scn %s max=2000 protocols=%s nt=1 family=mix wants=%s script=%s" % (ident, protos, ",".join(wants), ";".join(s))
 
 
+def busy_writer(rng, ident):
+    """calls cancelled / timing out while the writer is busy inside Write: their cancellation frames are queued behind it and
+    written once the peer drains; each must be accounted once with the bytes of its frame"""
+    s, wants, meths = [], [], []
+    k = 1 + rng.below(4)
+    for n in range(1, k + 1):
+        me = b"p.m%d" % n
+        meths.append(me)
+        s.append(scn.call(n, pad=rng.below(40), meth=me, timeout=rng.choice([0, 0, 300])))
+        wants += ["call~%d~plain" % n, "cancel~%d~cancelof" % n]
+    me = b"p.m%d" % (k + 1)
+    meths.append(me)
+    s += ["stallw/on", scn.notify(k + 1, pad=rng.below(40), meth=me, nowait=True), "waitinwrite"]
+    wants.append("notify~%d~plain" % (k + 1))
+    s.append("sleep/320")
+    for n in range(1, k + 1):
+        s.append(scn.cancel(n))
+    s += ["sleep/1", "stallw/off", "await/n%d" % (k + 1), "settle", "sleep/2", "settle"]
+    protos = "70:" + "+".join(m[2:].hex() for m in meths)
+    return "scn %s max=2000 protocols=%s nt=1 family=cancel-behind-busy-writer wants=%s script=%s" % (ident, protos, ",".join(wants), ";".join(s))
+
+
 def explore(ctx):
     rng, tier = ctx["rng"], ctx["tier"]
     if ctx.get("replay"):
@@ -89,6 +111,8 @@ def explore(ctx):
         lines = C.load_corpus("C20")
         for k in range({"quick": 200, "thorough": 5000, "search": 800}[tier]):
             lines.append(scenario(rng, "s%d" % k))
+        for k in range({"quick": 8, "thorough": 100, "search": 20}[tier]):
+            lines.append(busy_writer(rng, "w%d" % k))
         for k in range({"quick": 300, "thorough": 5000, "search": 800}[tier]):
             ops = []
             for _ in range(rng.below(7)):
